@@ -47,7 +47,6 @@ def el_id(e):
 
 def observe_msg(mid, mabs, seed):
     import sys
-    sys.path.insert(0, "/repo")
     from mosromgr.mostypes import MosFile
     from mosromgr.moselements import Story
     g = Gamma("%s|%s" % (seed, mid))
